@@ -337,3 +337,126 @@ def c12(pid, tier, replay):
 
 
 REGISTRY["C12"] = c12
+
+
+import cfggen
+import glob
+
+
+def run_parse_cases(scr, h, cases, tag):
+    cpath = scr.fresh(tag + "-cases") + ".json"
+    with open(cpath, "w") as f:
+        json.dump(cases, f)
+    t = scr.fresh(tag) + ".ndjson"
+    run_cmd([h, "parse", cpath, t])
+    os.remove(cpath)
+    return t
+
+
+def build_hidi(scr):
+    return scr.build(pkg="./cmd/hidi", name="hidi-verif")
+
+
+def c10(pid, tier, replay):
+    scr = vlib.Scratch(pid)
+    out = casecheck.CaseOutcome(pid, tier, ["C10_"])
+    h = scr.build()
+    if replay:
+        with open(replay) as f:
+            rp = json.load(f)
+        d = rp["case"]["desc"]
+        cases = [{"id": 1, "kind": rp["case"].get("kind", "replay"), "desc": d, "toml": cfggen.render(d, sp)} for sp in ("inline", "header", "dotted")]
+    else:
+        cases = cfggen.c10_cases(vlib.seed(), tier)
+    t = run_parse_cases(scr, h, cases, "c10")
+    chunks = split_ndjson(scr, t, 8 if tier == "quick" else 14)
+    for tf, r in zip(chunks, vlib.validate_traces_parallel(scr, "ConfigFileTrace", chunks, xmx="3g")):
+        out.add(tf, r, sample_filter=lambda d: d.get("kind") != "valid")
+    acc = sum(v for k, v in out.classes.items() if k == "valid:config")
+    out.extra["accepted_valid_descriptions"] = acc
+    out.notes.append("descriptions: 1-3 mappings, 0-2 sub-handlers, keys by name and hex code, notes by number and name, all four "
+                     "analog types with optional fields present or absent, three TOML spellings (inline tables, sub-table headers, "
+                     "dotted keys); every single-field invalidation of each")
+    return out.finish(rule="one case = one rendered configuration parsed by the real config.ParseData, the returned Config projected to "
+                           "plain data and compared with ConfigFile!Meaning by TLC; invalid ones must be rejected. Acceptance of a valid "
+                           "description is not demanded (counted in case_classes so that the faithful branch is not vacuous)",
+                      assumptions=["the renderer (lib/cfggen.py) writes what the description says"])
+
+
+def c09(pid, tier, replay):
+    scr = vlib.Scratch(pid)
+    out = casecheck.CaseOutcome(pid, tier, ["C09_"])
+    h = scr.build()
+    hidi = build_hidi(scr)
+    seed = vlib.seed()
+    if replay:
+        import base64
+        with open(replay) as f:
+            rp = json.load(f)
+        c = rp["case"]
+        text = base64.b64decode(c["input_b64"]).decode("latin-1") if c.get("input_b64") else ""
+        cases = [{"id": 1, "kind": "replay", "toml": text}]
+        t = run_parse_cases(scr, h, cases, "c09r")
+        out.add(t, vlib.validate_trace(scr, "ConfigFileTrace", t))
+        return out.finish(rule="replay")
+    # (a) structured: valid TOML with missing / extra / ill-typed fields, descriptions of C10 as well
+    texts = cfggen.c09_structured(seed, tier)
+    cases = [{"id": i + 1, "kind": "structured", "toml": x} for i, x in enumerate(texts)]
+    for c in cfggen.c10_cases(seed, "quick"):
+        cases.append({"id": len(cases) + 1, "kind": "described", "toml": c["toml"]})
+    t1 = run_parse_cases(scr, h, cases, "c09s")
+    # (b) byte-level mutations of the shipped files and of rendered ones
+    files = sorted(glob.glob(os.path.join(scr.repo, "cmd/hidi/hidi-config/factory/*/*.toml")))
+    import random
+    rng = random.Random(seed)
+    for i in range(2):
+        p = scr.fresh("rendered") + ".toml"
+        with open(p, "w") as f:
+            f.write(cfggen.render(cfggen.valid_desc(rng, full=True), ["inline", "header"][i]))
+        files.append(p)
+    t2 = scr.fresh("c09f") + ".ndjson"
+    nrand = 3000 if tier == "quick" else 60000
+    if tier == "quick":
+        files = files[:1] + files[2:3] + files[-2:]
+    run_cmd([h, "parsefuzz", str(seed), str(nrand), t2] + files, timeout=3000)
+    # (c) hidi.toml through the application's own LoadHIDIConfig
+    hdir = scr.path("hiditoml")
+    os.makedirs(hdir, exist_ok=True)
+    hfiles = []
+    htexts = cfggen.hidi_toml_cases(seed, tier)
+    shipped = open(os.path.join(scr.repo, "cmd/hidi/hidi-config/hidi.toml"), "rb").read()
+    for i in range(0, len(shipped) + 1, 1 if tier == "thorough" else 7):
+        htexts.append(shipped[:i].decode("latin-1"))
+    for i, x in enumerate(htexts):
+        p = os.path.join(hdir, "h%d.toml" % i)
+        with open(p, "wb") as f:
+            f.write(x.encode("latin-1", "replace"))
+        hfiles.append(p)
+    t3 = scr.fresh("c09h") + ".ndjson"
+    with open(t3, "w") as o:
+        for i in range(0, len(hfiles), 200):
+            r = subprocess.run([hidi] + hfiles[i:i + 200], env=dict(os.environ, HIDI_VERIF_OP="hidiconfig"), stdout=o,
+                               stderr=subprocess.PIPE, text=True, timeout=600)
+            if r.returncode != 0:
+                raise Infra("cmd/hidi verif entry failed: " + r.stderr[-2000:])
+    fuzz_total = 0
+    for t in (t1, t2, t3):
+        r = vlib.validate_trace(scr, "ConfigFileTrace", t)
+        out.add(t, r, sample_filter=lambda d: d.get("ev") in ("parse", "hidiconfig"))
+    with open(t2) as f:
+        for line in f:
+            d = json.loads(line)
+            if d.get("ev") == "fuzzsummary":
+                fuzz_total = d["total"]
+                out.extra["fuzz_outcomes"] = d["counts"]
+    out.extra["evaluations"] = len(cases) + fuzz_total + len(hfiles)
+    out.notes.append("%d structured / described TOML texts, %d byte-level mutations (truncation at every byte, deletion and duplication "
+                     "of every line, flips, splices, random bytes) of %d files, %d hidi.toml texts through LoadHIDIConfig; each with a "
+                     "panic guard and a 5 s watchdog" % (len(cases), fuzz_total, len(files), len(hfiles)))
+    return out.finish(rule="every input is parsed by the real ParseData / LoadHIDIConfig; outcome must be a configuration or an error; "
+                           "mutation cases are counted, only crashes are logged line by line; distinct_nontrivial = logged cases",
+                      assumptions=["'all byte strings up to 64 KiB' is sampled by mutation, not exhausted"])
+
+
+REGISTRY["C09"] = c09
+REGISTRY["C10"] = c10
